@@ -20,12 +20,23 @@ def gen_table(rng, cls, le):
     e = '<' if le else '>'
     pool = ['main', 'foo', 'foo', 'bar', '', '', 'été', 'a_rather_long_symbol_name_for_testing', 'x']
     names = [''] + [rng.choice(pool) for _ in range(rng.choice([0, 1, 3, 6, 12]))]
+    # a string table need not be free of duplicates: a name may be stored twice, may be the tail of a longer string (tail
+    # merging by link editors), and the empty name is any NUL byte; each symbol uses any of the offsets that spell its name
     strtab = b'\x00'
-    off = {'': 0}
+    offs = {'': [0]}
     for n in dict.fromkeys(names):
-        if n and n not in off:
-            off[n] = len(strtab)
-            strtab += n.encode('utf-8') + b'\x00'
+        if n:
+            for _rep in range(rng.choice([1, 1, 2])):
+                if rng.random() < 0.3:
+                    strtab += b'pre_'
+                offs.setdefault(n, []).append(len(strtab))
+                strtab += n.encode('utf-8') + b'\x00'
+                offs[''].append(len(strtab) - 1)
+
+    class _Pick(dict):
+        def __getitem__(self, n):
+            return rng.choice(offs[n])
+    off = _Pick()
     syms, exp = b'', []
     for i, n in enumerate(names):
         b_, t_, v_ = (rng.choice(sorted(BIND)), rng.choice(sorted(TYPE)), rng.choice(sorted(VIS))) if i else (0, 0, 0)
